@@ -3,8 +3,9 @@
 Oracles (all independent of the order-handling code under test):
 
 * permutation twins - a model and the same model with its declarations permuted (``vlib.gen.c06_models.apply_perm``)
-  must give the same matrix column under every clp label, the same fit (cost, optimised parameters) on the same
-  seeded data, and the same labelled result arrays, compared BY LABEL;
+  must give the same matrix column under every clp label and, through optimize() on the same seeded data, the same
+  cost and the same labelled result arrays at the same parameters (start values; optimum of the model), compared
+  BY LABEL, and the same first optimisation step (up to the noise of the optimiser's forward differences);
 * split twins - an oscillation / spectral megacomplex with k labels versus k single-label megacomplexes: what a
   label denotes is unchanged, so its column is;
 * composition - the per-index dataset matrix column of label L equals the sum over the dataset's megacomplexes of
@@ -427,8 +428,8 @@ def _base_fit(case, data, order, nfev):
     try:
         return run_fit(case, case["spec"], data, order, nfev=nfev)
     except ValueError as e:
-        if str(e).startswith("Non-finite concentrations"):
-            raise Discard("optimiser left the domain of the model (non-finite concentrations)") from e
+        if str(e).startswith("Non-finite concentrations") or "infs or NaNs" in str(e):
+            raise Discard("optimiser left the domain of the model (non-finite rates / concentrations)") from e
         raise
 
 
